@@ -77,8 +77,12 @@ def c_features(model):
 
 
 def grl_ok(model):
-    amap = X.assign_map(model)
-    return not any(diff.has_nondiff(amap[X.deriv_name(s["name"])], s["name"]) for s in model["states"])
+    """False for the two classes of models for which the Rush-Larsen schemes cannot be generated
+    (open known findings of C06)"""
+    from props.c06 import classify
+
+    nondiff, risky = classify(model)
+    return not (nondiff or risky)
 
 
 def check_case(case):
